@@ -56,47 +56,50 @@ Qed.
 
 Definition link_in (v : vobj) (keep : list name) : Prop := forall x, v_link v = Some x -> In x keep.
 
-Theorem remaining_links_spec b g cs names : forall acc,
-  spec b (remaining_links c g cs names acc)
+(* the version whose nodes are kept for the name n, if any *)
+Definition kept_version (b : bucket V) (g : list (name * vobj)) (cs cur : list name) (n : name) : option vobj :=
+  match (match find (fun kv => fst kv =? n) g with
+         | Some (_, v) => if mem n cs then None else Some v
+         | None => None
+         end) with
+  | Some v => Some v
+  | None => if mem n cur then ver_in b [PCur] n else None
+  end.
+
+Theorem remaining_links_spec b g cs cur names : forall acc,
+  spec b (remaining_links c g cs cur names acc)
        (fun keep => incl acc keep /\
-          forall n, In n names ->
-            match find (fun kv => fst kv =? n) g with
-            | Some kv => mem n cs = false -> link_in (snd kv) keep
-            | None => forall v, ver_in b [PCur] n = Some v -> link_in v keep
-            end).
+          forall n, In n names -> forall v, kept_version b g cs cur n = Some v -> link_in v keep).
 Proof.
   induction names as [|n rest IH]; intros acc; cbn [remaining_links].
   - apply spec_ret. split; [apply incl_refl|]. intros n [].
-  - assert (Step : forall v (P : vobj -> Prop), P v ->
+  - assert (Step : forall v,
               spec b (bind (load_tree c v) (fun l =>
                          match l with
-                         | LTree _ => remaining_links c g cs rest (match v_link v with Some x => x :: acc | None => acc end)
+                         | LTree _ => remaining_links c g cs cur rest (match v_link v with Some x => x :: acc | None => acc end)
                          | LGone => Fail E_LOADTREE
                          | LErr e => Fail e
                          end))
                    (fun keep => incl acc keep /\ link_in v keep /\
-                      forall n0, In n0 rest ->
-                        match find (fun kv => fst kv =? n0) g with
-                        | Some kv => mem n0 cs = false -> link_in (snd kv) keep
-                        | None => forall v0, ver_in b [PCur] n0 = Some v0 -> link_in v0 keep
-                        end)).
-    { intros v P _. eapply (spec_bind oeq plan); [apply (spec_ro b _ (load_tree_ro v))|].
+                      forall n0, In n0 rest -> forall v0, kept_version b g cs cur n0 = Some v0 -> link_in v0 keep)).
+    { intros v. eapply (spec_bind oeq plan); [apply (spec_ro b _ (load_tree_ro v))|].
       intros l _. destruct l as [t| |e]; try apply spec_fail.
       eapply spec_conseq; [|apply IH]. intros keep [Hi Hr]. split; [|split; [|exact Hr]].
       - intros x Hx. apply Hi. destruct (v_link v); [right|]; exact Hx.
       - intros x Hx. apply Hi. rewrite Hx. left. reflexivity. }
-    destruct (find (fun kv => fst kv =? n) g) as [[k v]|] eqn:F.
-    + destruct (mem n cs) eqn:M.
+    unfold kept_version in *.
+    destruct (match find (fun kv => fst kv =? n) g with Some (_, v) => if mem n cs then None else Some v | None => None end) as [v|] eqn:F.
+    + eapply spec_conseq; [|apply (Step v)]. intros keep (Hi & Hl & Hr). split; [exact Hi|].
+      intros n0 [<-|Hin] v0 E; [rewrite F in E; injection E as <-; exact Hl|exact (Hr n0 Hin v0 E)].
+    + destruct (mem n cur) eqn:Mc.
+      * eapply (spec_bind oeq plan); [apply load_root_general|]. intros ro ->.
+        destruct (ver_in b [PCur] n) as [v|] eqn:Vn.
+        -- eapply spec_conseq; [|apply (Step v)]. intros keep (Hi & Hl & Hr). split; [exact Hi|].
+           intros n0 [<-|Hin] v0 E; [rewrite F, Mc, Vn in E; injection E as <-; exact Hl|exact (Hr n0 Hin v0 E)].
+        -- eapply spec_conseq; [|apply IH]. intros keep [Hi Hr]. split; [exact Hi|].
+           intros n0 [<-|Hin] v0 E; [rewrite F, Mc, Vn in E; discriminate|exact (Hr n0 Hin v0 E)].
       * eapply spec_conseq; [|apply IH]. intros keep [Hi Hr]. split; [exact Hi|].
-        intros n0 [<-|Hin]; [rewrite F; intros Hm; congruence|exact (Hr n0 Hin)].
-      * eapply spec_conseq; [|apply (Step v (fun _ => True) I)]. intros keep (Hi & Hl & Hr). split; [exact Hi|].
-        intros n0 [<-|Hin]; [rewrite F; intros _; exact Hl|exact (Hr n0 Hin)].
-    + eapply (spec_bind oeq plan); [apply load_root_general|]. intros ro ->.
-      destruct (ver_in b [PCur] n) as [v|] eqn:Vn.
-      * eapply spec_conseq; [|apply (Step v (fun _ => True) I)]. intros keep (Hi & Hl & Hr). split; [exact Hi|].
-        intros n0 [<-|Hin]; [rewrite F; intros v0 E; rewrite Vn in E; injection E as <-; exact Hl|exact (Hr n0 Hin)].
-      * eapply spec_conseq; [|apply IH]. intros keep [Hi Hr]. split; [exact Hi|].
-        intros n0 [<-|Hin]; [rewrite F; intros v0 E; rewrite Vn in E; discriminate|exact (Hr n0 Hin)].
+        intros n0 [<-|Hin] v0 E; [rewrite F, Mc in E; discriminate|exact (Hr n0 Hin v0 E)].
 Qed.
 
 Lemma mem_in n l : mem n l = true <-> In n l.
@@ -110,7 +113,9 @@ Proof.
   induction l as [|x l IH]; cbn [fold_right]; [tauto|]. rewrite in_insert_sorted, IH. cbn. intuition.
 Qed.
 
-(* what keepReachableNodes lets through *)
+(* what keepReachableNodes lets through: never the root node of this handle's own tree, of a
+   version of the history that stays, or of ANY version under current/ (also a deletable one
+   that was never retired) *)
 Theorem keep_reachable_spec b (h : handle (V := V)) g cs blocks :
   spec b (keep_reachable c h g cs blocks)
        (fun res =>
@@ -119,7 +124,8 @@ Theorem keep_reachable_spec b (h : handle (V := V)) g cs blocks :
             h_link h <> Some x /\
             (forall kv, In kv g -> find (fun kv' => fst kv' =? fst kv) g = Some kv -> mem (fst kv) cs = false ->
                         v_link (snd kv) <> Some x) /\
-            (forall n v, find (fun kv' => fst kv' =? n) g = None -> ver_in b [PCur] n = Some v ->
+            (forall n v, ver_in b [PCur] n = Some v ->
+                         (find (fun kv' => fst kv' =? n) g = None \/ mem n cs = true) ->
                          v_link v <> Some x)).
 Proof.
   unfold keep_reachable. destruct blocks as [|b0 blocks]; [apply spec_ret; intros x []|].
@@ -133,12 +139,17 @@ Proof.
   - intros kv Hin Hf Hm E. apply Nk.
     assert (Hn : In (fst kv) (fold_right insert_sorted [] (map fst g ++ o_names (b_cur b)))).
     { apply in_sorted_names. apply in_or_app. left. apply in_map. exact Hin. }
-    specialize (Hr _ Hn). rewrite Hf in Hr. exact (Hr Hm x E).
-  - intros n v Hf Hv E. apply Nk.
+    apply (Hr _ Hn (snd kv)); [|exact E]. unfold kept_version. rewrite Hf. destruct kv as [k0 v0]. cbn [fst snd] in *. rewrite Hm. reflexivity.
+  - intros n v Hv Hcase E. apply Nk.
+    assert (Hc : In n (o_names (b_cur b))).
+    { apply (in_o_names oeq). cbn [ver_in sel] in Hv. destruct (o_get n (b_cur b)); discriminate. }
     assert (Hn : In n (fold_right insert_sorted [] (map fst g ++ o_names (b_cur b)))).
-    { apply in_sorted_names. apply in_or_app. right. apply (in_o_names oeq).
-      cbn [ver_in sel] in Hv. destruct (o_get n (b_cur b)); [discriminate|discriminate]. }
-    specialize (Hr _ Hn). rewrite Hf in Hr. exact (Hr v Hv x E).
+    { apply in_sorted_names. apply in_or_app. right. exact Hc. }
+    apply (Hr _ Hn v); [|exact E]. unfold kept_version.
+    assert (Mc : mem n (o_names (b_cur b)) = true) by (apply mem_in; exact Hc).
+    destruct Hcase as [Hf|Hm].
+    + rewrite Hf, Mc. exact Hv.
+    + destruct (find (fun kv' => fst kv' =? n) g) as [[k0 v0]|]; [rewrite Hm|]; rewrite Mc; exact Hv.
 Qed.
 
 End Keep.
